@@ -13,7 +13,10 @@ int  __vmpi_rank(int) { return 0; }
 int  __vmpi_size(int) { return 1; }
 void __vmpi_barrier(int) {}
 int  __vmpi_split(int comm, int) { return comm; }
-void __vmpi_collective(int, int, int, long, long, void*) {}
+static const void* vone[1];
+const void* __vmpi_bcast_sync(int, int, const void* mine, long) { return mine; }
+const void* const* __vmpi_gather_ptrs(int, int, const void* mine, long) { vone[0] = mine; return vone; }
+void __vmpi_coll_done(int) {}
 
 static int vmatch(const VReq& r, int src, int tag) {
     return (r.src == src || r.src == -2) && (r.tag == tag || r.tag == -1);
